@@ -244,6 +244,31 @@ theorem Ext.set {d : RPath} {fs : FS} {p : RPath} (hu : Under d p) (h : fs p = n
   · subst hqp; exact hu
   · simp [hqp] at hq
 
+/-- like `Ext`, and the only differences are NEW DIRECTORIES -/
+def DExt (d : RPath) (fs fs' : FS) : Prop :=
+  (∀ q, fs' q ≠ fs q → Under d q ∧ fs q = none ∧ fs' q = some .dir) ∧ Mono fs fs'
+
+theorem DExt.toExt {d : RPath} {fs fs' : FS} (h : DExt d fs fs') : Ext d fs fs' :=
+  ⟨fun q hq => (h.1 q hq).1, h.2⟩
+
+theorem DExt.refl (d : RPath) (fs : FS) : DExt d fs fs := ⟨fun _ h => absurd rfl h, Mono.refl fs⟩
+
+theorem DExt.trans {d : RPath} {a b c : FS} (h1 : DExt d a b) (h2 : DExt d b c) : DExt d a c := by
+  refine ⟨fun q hq => ?_, h1.2.trans h2.2⟩
+  by_cases hb : b q = a q
+  · obtain ⟨hu, hn, hd⟩ := h2.1 q (by rw [hb]; exact hq)
+    exact ⟨hu, by rw [← hb]; exact hn, hd⟩
+  · obtain ⟨hu, hn, hd⟩ := h1.1 q hb
+    exact ⟨hu, hn, h2.2 q _ hd⟩
+
+theorem DExt.set {d : RPath} {fs : FS} {p : RPath} (hu : Under d p) (h : fs p = none) :
+    DExt d fs (fs.set p (some .dir)) := by
+  refine ⟨fun q hq => ?_, Mono.set h _⟩
+  unfold FS.set at hq ⊢
+  by_cases hqp : q = p
+  · subst hqp; exact ⟨hu, h, by simp⟩
+  · simp [hqp] at hq
+
 /-- mkdir of an existing directory (a path the kernel resolves) answers EEXIST -/
 theorem mkdir_existing (fs : FS) (cwd : RPath) (cd : List Comp) (d : RPath)
     (hw : walk fs cwd cd = .ok d) (hne : cd ≠ []) : mkdir fs cwd cd = .error .eexist := by
@@ -274,7 +299,7 @@ def Below (cd : List Comp) (x : List Comp) : Prop := ∃ m : List Seg, m ≠ [] 
 theorem mkdir_below (fs : FS) (cwd : RPath) (cd : List Comp) (d : RPath) (l : List Seg)
     (hw : walk fs cwd cd = .ok d) (fs' : FS) (p : RPath)
     (h : mkdir fs cwd (cd ++ l.map .normal) = .ok (fs', p)) :
-    l ≠ [] ∧ p = d ++ l ∧ Ext d fs fs' := by
+    l ≠ [] ∧ p = d ++ l ∧ DExt d fs fs' := by
   rcases snoc_cases l with hl | ⟨l', s, hl⟩
   · subst hl
     simp only [List.map_nil, List.append_nil] at h
@@ -302,7 +327,7 @@ theorem mkdir_below (fs : FS) (cwd : RPath) (cd : List Comp) (d : RPath) (l : Li
         subst hd'
         refine ⟨by simp, by simp [← h2], ?_⟩
         rw [← h1]
-        exact Ext.set ⟨l' ++ [s], by simp, by simp⟩ hk _
+        exact DExt.set ⟨l' ++ [s], by simp, by simp⟩ hk
 
 theorem isDirC_mono {fs fs' : FS} (hm : Mono fs fs') (cwd : RPath) (cs : List Comp) :
     isDirC fs cwd cs = true → isDirC fs' cwd cs = true := by
@@ -331,7 +356,7 @@ theorem cdaUp_conf (fs : FS) (cwd : RPath) (cd : List Comp) (d : RPath) (hw : wa
     ∀ (n : Nat) (l : List Seg) (pend : List (List Comp)), (∀ x ∈ pend, Below cd x) →
     ∀ (fs' : FS) (ds : List RPath) (pend' : List (List Comp)),
       cdaUp fs cwd n (cd ++ l.map .normal) pend = .ok (fs', ds, pend') →
-      Ext d fs fs' ∧ (∀ p ∈ ds, Under d p) ∧ (∀ x ∈ pend', Below cd x) := by
+      DExt d fs fs' ∧ (∀ p ∈ ds, Under d p) ∧ (∀ x ∈ pend', Below cd x) := by
   intro n
   induction n with
   | zero =>
@@ -339,15 +364,15 @@ theorem cdaUp_conf (fs : FS) (cwd : RPath) (cd : List Comp) (d : RPath) (hw : wa
     simp only [cdaUp] at h
     injection h with h; injection h with h1 h; injection h with h2 h3
     subst h1; subst h2; subst h3
-    exact ⟨Ext.refl d fs, by simp, hp⟩
+    exact ⟨DExt.refl d fs, by simp, hp⟩
   | succ n ih =>
     intro l pend hp fs' ds pend' h
     have triv : (Except.ok (fs, ([] : List RPath), pend) : Except Errno _) = .ok (fs', ds, pend') →
-        Ext d fs fs' ∧ (∀ p ∈ ds, Under d p) ∧ (∀ x ∈ pend', Below cd x) := by
+        DExt d fs fs' ∧ (∀ p ∈ ds, Under d p) ∧ (∀ x ∈ pend', Below cd x) := by
       intro h
       injection h with h; injection h with h1 h; injection h with h2 h3
       subst h1; subst h2; subst h3
-      exact ⟨Ext.refl d fs, by simp, hp⟩
+      exact ⟨DExt.refl d fs, by simp, hp⟩
     generalize hcs : cd ++ l.map Comp.normal = cs at h
     unfold cdaUp at h
     cases cs with
@@ -406,8 +431,8 @@ theorem cdaUp_conf (fs : FS) (cwd : RPath) (cd : List Comp) (d : RPath) (hw : wa
 theorem cdaDown_conf (cwd : RPath) (cd : List Comp) (d : RPath) :
     ∀ (pend : List (List Comp)) (fs : FS) (acc : List RPath),
       walk fs cwd cd = .ok d → (∀ x ∈ pend, Below cd x) → (∀ p ∈ acc, Under d p) →
-      Ext d fs (cdaDown cwd fs pend acc).fs ∧ (∀ p ∈ (cdaDown cwd fs pend acc).dirs, Under d p)
-  | [], fs, acc, _, _, ha => by simp only [cdaDown]; exact ⟨Ext.refl d fs, ha⟩
+      DExt d fs (cdaDown cwd fs pend acc).fs ∧ (∀ p ∈ (cdaDown cwd fs pend acc).dirs, Under d p)
+  | [], fs, acc, _, _, ha => by simp only [cdaDown]; exact ⟨DExt.refl d fs, ha⟩
   | cs :: rest, fs, acc, hw, hp, ha => by
     obtain ⟨m, hm, hcs⟩ := hp cs (by simp)
     have hrest : ∀ x ∈ rest, Below cd x := fun x hx => hp x (by simp [hx])
@@ -432,23 +457,23 @@ theorem cdaDown_conf (cwd : RPath) (cd : List Comp) (d : RPath) :
         simp only []
         split
         · exact cdaDown_conf cwd cd d rest fs acc hw hrest ha
-        · exact ⟨Ext.refl d fs, ha⟩
-      | enoent => exact ⟨Ext.refl d fs, ha⟩
-      | enotdir => exact ⟨Ext.refl d fs, ha⟩
-      | eisdir => exact ⟨Ext.refl d fs, ha⟩
+        · exact ⟨DExt.refl d fs, ha⟩
+      | enoent => exact ⟨DExt.refl d fs, ha⟩
+      | enotdir => exact ⟨DExt.refl d fs, ha⟩
+      | eisdir => exact ⟨DExt.refl d fs, ha⟩
 
 /-- `create_dir_all(dest/<names>)` -/
 theorem createDirAll_conf (fs : FS) (cwd : RPath) (cd : List Comp) (d : RPath) (l : List Seg)
     (hw : walk fs cwd cd = .ok d) :
-    Ext d fs (createDirAll fs cwd (cd ++ l.map .normal)).fs ∧
+    DExt d fs (createDirAll fs cwd (cd ++ l.map .normal)).fs ∧
     (∀ p ∈ (createDirAll fs cwd (cd ++ l.map .normal)).dirs, Under d p) := by
   unfold createDirAll
   split
-  · exact ⟨Ext.refl d fs, by simp⟩
+  · exact ⟨DExt.refl d fs, by simp⟩
   · split
-    · exact ⟨Ext.refl d fs, by simp⟩
+    · exact ⟨DExt.refl d fs, by simp⟩
     · split
-      · exact ⟨Ext.refl d fs, by simp⟩
+      · exact ⟨DExt.refl d fs, by simp⟩
       · rename_i fs1 d1 pend hup
         obtain ⟨hext, hd1, hpend⟩ := cdaUp_conf fs cwd cd d hw _ l [] (by simp) fs1 d1 pend hup
         have hw1 := walk_mono hext.2 _ _ _ hw
@@ -486,6 +511,7 @@ theorem lookupParent_below (fs : FS) (cwd : RPath) (p : Str) (cd : List Comp) (d
 /-- what `open` leaves behind when the relative path passed the repair's check -/
 structure OpenSpec (fs : FS) (cwd : RPath) (dest rel : Str) (d : RPath) (o : OpenRes) : Prop where
   ext : Ext d fs o.fs
+  failed : o.opened = none → DExt d fs o.fs
   dirs : ∀ p ∈ o.dirs, Under d p
   opened : ∀ dst f fresh, o.opened = some (dst, f, fresh) →
     dst = join dest rel ∧ Under d f ∧ f = resolveC d (components rel) ∧
@@ -510,21 +536,21 @@ theorem openAt_conf (fs : FS) (cwd : RPath) (dest rel : Str) (d : RPath)
   obtain ⟨made, hmade, hmext, hmdirs⟩ : ∃ made : Partial,
       made = (if isDirC fs cwd (components dest ++ l'.map .normal) then (⟨fs, [], none⟩ : Partial)
               else createDirAll fs cwd (components dest ++ l'.map .normal)) ∧
-      Ext d fs made.fs ∧ (∀ p ∈ made.dirs, Under d p) := by
+      DExt d fs made.fs ∧ (∀ p ∈ made.dirs, Under d p) := by
     refine ⟨_, rfl, ?_⟩
     split
-    · exact ⟨Ext.refl d fs, by simp⟩
+    · exact ⟨DExt.refl d fs, by simp⟩
     · exact createDirAll_conf fs cwd (components dest) d l' hw
   have hwm : walk made.fs cwd (components dest) = .ok d := walk_mono hmext.2 _ _ _ hw
   unfold openAt
   simp only [hpar, ← hmade]
   cases herr : made.err with
-  | some e => exact ⟨hmext, hmdirs, by intro _ _ _ h; cases h⟩
+  | some e => exact ⟨hmext.toExt, fun _ => hmext, hmdirs, by intro _ _ _ h; cases h⟩
   | none =>
     simp only []
     unfold fileCreate
     cases hlp : lookupParent made.fs cwd (join dest rel) with
-    | error e => exact ⟨hmext, hmdirs, by intro _ _ _ h; cases h⟩
+    | error e => exact ⟨hmext.toExt, fun _ => hmext, hmdirs, by intro _ _ _ h; cases h⟩
     | ok f =>
       obtain ⟨hf, hlm⟩ := lookupParent_below made.fs cwd _ _ d l' s hcj hwm f hlp
       have hu : Under d f := ⟨l' ++ [s], by simp, hf⟩
@@ -533,17 +559,17 @@ theorem openAt_conf (fs : FS) (cwd : RPath) (dest rel : Str) (d : RPath)
       | none =>
         simp only []
         have hext2 : Ext d made.fs (made.fs.set f (some .file)) := Ext.set hu hk _
-        refine ⟨hmext.trans hext2, hmdirs, ?_⟩
+        refine ⟨hmext.toExt.trans hext2, (by intro h; cases h), hmdirs, ?_⟩
         intro dst f' fresh h
         injection h with h; injection h with h1 h; injection h with h2 h3
         subst h1; subst h2
         exact ⟨rfl, hu, by rw [hres]; exact hf, by simp [FS.set], hlm _ hext2.2⟩
       | some k =>
         cases k with
-        | dir => exact ⟨hmext, hmdirs, by intro _ _ _ h; cases h⟩
+        | dir => exact ⟨hmext.toExt, fun _ => hmext, hmdirs, by intro _ _ _ h; cases h⟩
         | file =>
           simp only []
-          refine ⟨hmext, hmdirs, ?_⟩
+          refine ⟨hmext.toExt, (by intro h; cases h), hmdirs, ?_⟩
           intro dst f' fresh h
           injection h with h; injection h with h1 h; injection h with h2 h3
           subst h1; subst h2
@@ -605,11 +631,80 @@ theorem openAt_again (fs : FS) (cwd : RPath) (dest rel : Str) (d : RPath)
   simp only [hfile]
 
 
+/-- the builder's own check (`dest.is_dir()`): the kernel resolves `dest`, to its lexical resolution -/
+theorem builder_dest (fs : FS) (cwd : RPath) (dest : Str) (hb : builderNew fs cwd dest = true) :
+    dest ≠ [] ∧ walk fs cwd (components dest) = .ok (resolve cwd dest) := by
+  unfold builderNew isDirC at hb
+  have hne : dest ≠ [] := by
+    intro h; subst h; simp [components_nil] at hb
+  refine ⟨hne, ?_⟩
+  cases hc : components dest with
+  | nil => simp [hc] at hb
+  | cons c r =>
+    simp only [hc] at hb
+    cases hw : walk fs cwd (c :: r) with
+    | error e => simp [hw] at hb
+    | ok p =>
+      have := walk_eq_resolveC fs _ _ _ hw
+      rw [this, resolve, hc]
+
+theorem join_shape (dest rel : Str) (hd : dest ≠ []) (hr : hasRoot rel = false) :
+    ∃ a : Str, join dest rel = a ++ 47 :: rel := by
+  unfold join
+  simp only [hr]
+  rcases snoc_cases dest with hnil | ⟨a, c, hdl⟩
+  · exact absurd hnil hd
+  · subst hdl
+    simp only [List.getLast?_concat]
+    by_cases hc : c = 47
+    · subst hc; exact ⟨a, by simp⟩
+    · exact ⟨a ++ [c], by simp [hc]⟩
+
 theorem splitSlash_noslash : ∀ (s : Str), 47 ∉ s → splitSlash s = [s]
   | [], _ => by simp [splitSlash]
   | c :: r, h => by
     have hc : c ≠ 47 := fun hc => h (by simp [hc])
     have hr : 47 ∉ r := fun hr => h (by simp [hr])
     simp only [splitSlash, hc, if_false, splitSlash_noslash r hr]
+
+
+/-- a plain name directly below `dest` (e.g. `file:///hello`): `open` succeeds unless the name is an existing
+    directory; no directory is created -/
+theorem openAt_plain_name (fs : FS) (cwd : RPath) (dest name : Str) (d : RPath)
+    (hw : walk fs cwd (components dest) = .ok d) (hdne : dest ≠ []) (hcne : components dest ≠ [])
+    (h47 : 47 ∉ name) (hne : name ≠ []) (hd : name ≠ [46]) (hdd : name ≠ [46, 46])
+    (hnd : fs (d ++ [name]) ≠ some .dir) :
+    (openAt fs cwd dest name).dirs = [] ∧
+    (openAt fs cwd dest name).opened = some (join dest name, d ++ [name], (fs (d ++ [name])).isNone) := by
+  have hroot : hasRoot name = false := by
+    cases name with
+    | nil => rfl
+    | cons c r =>
+      have : c ≠ 47 := fun hc => h47 (by simp [hc])
+      simp [hasRoot, this]
+  have hcn : components name = [.normal name] := by
+    unfold components
+    simp [hroot, splitSlash_noslash name h47, hd, parseSingle, hne, hdd]
+  have hrel : relOk name = true := by simp [relOk, hcn, Comp.isNormal]
+  have hcj : components (join dest name) = components dest ++ [.normal name] := by
+    rw [components_join dest name hdne hrel, hcn]
+  obtain ⟨a, ha⟩ := join_shape dest name hdne hroot
+  have htr : trailingDir (join dest name) = false := by
+    unfold trailingDir
+    rw [ha, splitSlash_append_sep, splitSlash_noslash name h47, List.getLast?_concat]
+    simp [hne, hd, hdd]
+  have hpar : parentC (components (join dest name)) = some (components dest) := by
+    rw [hcj]; unfold parentC; rw [List.getLast?_concat, List.dropLast_concat]
+  have hdir : isDirC fs cwd (components dest) = true := isDirC_of_walk fs cwd _ d hcne hw
+  unfold openAt
+  simp only [hpar, hdir, if_true]
+  unfold fileCreate lookupParent
+  simp only [htr, Bool.false_eq_true, if_false, hcj, List.getLast?_concat, List.dropLast_concat, hw]
+  cases hk : fs (d ++ [name]) with
+  | none => simp
+  | some k =>
+    cases k with
+    | dir => exact absurd hk hnd
+    | file => simp
 
 end Flute.Lemmas.PathMap
